@@ -72,12 +72,12 @@ fn col_flags(r: &CellRef) -> u16 {
     (r.col as u16 & 0x3FFF) | if r.col_abs { 0 } else { 0x4000 } | if r.row_abs { 0 } else { 0x8000 }
 }
 
-/// rgce bytes. `wide_rows`: BIFF12 (u32 rows, 16-bit string lengths); `value_class`: use the value-class
-/// (0x40) token ids for operands instead of the reference class (0x20).
 thread_local! { static NAME_BASE: std::cell::Cell<u32> = const { std::cell::Cell::new(0) }; }
 /// Run `f` with PtgName indices shifted by `base` (the workbook has `base` name records before the model's names).
 pub fn with_name_base<R>(base: u32, f: impl FnOnce() -> R) -> R { NAME_BASE.with(|b| b.set(base)); let r = f(); NAME_BASE.with(|b| b.set(0)); r }
 
+/// rgce bytes. `wide_rows`: BIFF12 (u32 rows, 16-bit string lengths); `value_class`: use the value-class
+/// (0x40) token ids for operands instead of the reference class (0x20).
 pub fn to_ptg(e: &Expr, biff12: bool, value_class: bool, out: &mut Vec<u8>) {
     let cls = if value_class { 0x40 } else { 0x20 };
     let row = |r: u32, out: &mut Vec<u8>| { if biff12 { out.extend(r.to_le_bytes()) } else { out.extend((r as u16).to_le_bytes()) } };
